@@ -63,9 +63,11 @@ AuxNext(aux, o) ==
                                           !.resetSent = FALSE]
               ELSE aux
         a1 == CbFold(a0, o.cb, 1)
+        \* the peer's Logon with the flag, accepted while ours is outstanding, is the echo: the exchange is over
+        echoed == a1.resetSent /\ IsIn(o) /\ o.ev.m.t = "A" /\ o.ev.m.rsf = "Y" /\ o.post.nIn = o.ev.m.seq + 1
         a2 == [a1 EXCEPT !.sentAny = @ \/ Wire(o) # <<>>,
                          !.ourLogout = @ \/ (\E x \in Range(o.out) : x.t = "5"),
-                         !.resetSent = @ \/ (\E x \in Range(o.out) : x.t = "A" /\ x.x = "Y")]
+                         !.resetSent = (@ /\ ~echoed) \/ (\E x \in Range(o.out) : x.t = "A" /\ x.x = "Y")]
     IN IF o.post.ep # o.pre.ep THEN [a2 EXCEPT !.lastApp = 0] ELSE a2
 
 \* ------------------------------------------------------------------ C01
@@ -234,7 +236,9 @@ C07_Clause(c, aux, o) ==
             (o.ev.k = "Connect" /\ o.cfg.role = "init" /\ o.cfg.resetOnLogon /\ o.cfg.bs >= 41 /\ ~pre.conn /\ pre.st = "latent") =>
                     (Len(lo) = 1 /\ lo[1].seq = 1 /\ lo[1].x = "Y" /\ post.nOut = 2 /\ post.nIn = 1)
       [] c = "resetLogonReceived" -> \* Logon 1 with the flag: reply Logon 1 echoing it, both sides count from 1
-            (goodLogon1 /\ o.cfg.role = "acc") =>
+            \* (unless our own Logon with the flag is already out on this connection - ResetSeqTime crossed
+            \* before the peer's Logon arrived - in which case that Logon is the one the peer sees as the answer)
+            (goodLogon1 /\ o.cfg.role = "acc" /\ ~aux.resetSent) =>
                     (Len(lo) = 1 /\ lo[1].seq = 1 /\ lo[1].x = "Y" /\ post.nOut = 2 /\ post.nIn = 2)
       [] c = "echoDoesNotResetAgain" ->
             (goodLogon1 /\ o.cfg.role = "init" /\ aux.resetSent) =>
@@ -242,6 +246,16 @@ C07_Clause(c, aux, o) ==
       [] c = "resetFlagHonoured" ->  \* a received flag that does not answer a reset of ours resets the store
             (goodLogon1 /\ o.cfg.role = "init" /\ ~aux.resetSent) =>
                     (post.ep # pre.ep /\ post.nIn = 2 /\ post.nOut = 1)
+      [] c = "resetAtTime" ->        \* ResetSeqTime crossed while connected: our Logon is number 1 and carries the flag
+            /\ (o.ev.k = "ResetTick" /\ o.cfg.resetSeqTime /\ pre.conn /\ pre.st \in LoggedOnSt) =>
+                    (Len(lo) = 1 /\ lo[1].seq = 1 /\ lo[1].x = "Y" /\ post.nOut = 2 /\ post.nIn = 1 /\ post.ep # pre.ep)
+            /\ (o.ev.k = "ResetTick" /\ (~o.cfg.resetSeqTime \/ ~pre.conn)) =>
+                    (post.ep = pre.ep /\ post.nIn = pre.nIn /\ post.nOut = pre.nOut /\ Wire(o) = <<>>)
+      [] c = "echoOfTimedReset" ->   \* the peer's echo (its number 1) of a reset we started while logged on completes the
+                                     \* exchange: we go on from 2 and do not reset, or number a message 1, again
+            (flagIn /\ Clean(m) /\ m.app = "ok" /\ m.seq = 1 /\ pre.st \in {"inSession", "pending(inSession)"}
+                /\ aux.resetSent /\ pre.nIn = 1 /\ pre.nOut = 2 /\ pre.q = 0 /\ pre.inbuf = 0) =>
+                    (post.ep = pre.ep /\ post.nIn = 2 /\ post.nOut = 2 /\ Len(lo) = 0)
       [] c = "resetOnLogout" ->
             (o.cfg.resetOnLogout /\ IsIn(o) /\ m.t = "5" /\ Clean(m) /\ m.app = "ok"
                 /\ pre.st \in LoggedOnSt \cup {"logout"} /\ pre.inbuf = 0) =>
@@ -259,6 +273,7 @@ C07_Clause(c, aux, o) ==
                       post.nIn = m.newseq
 
 C07_Names == {"onlyAgreedResets", "continuity", "resetLogonSent", "resetLogonReceived", "echoDoesNotResetAgain", "resetFlagHonoured",
+              "resetAtTime", "echoOfTimedReset",
               "resetOnLogout", "resetOnDisconnect", "seqResetForwardOnly"}
 C07_Fails(aux, o) == {c \in C07_Names : ~C07_Clause(c, aux, o)}
 C07_Step(aux, o) == C07_Fails(aux, o) = {}
